@@ -785,7 +785,7 @@ Qed.
 
 Lemma shape3_repaired f : shape3_free GDefaultAndDefaults f = true.
 Proof.
-  unfold shape3_free. apply forallb_forall. intros [[d c] i] _. apply forallb_forall. intros g _. apply shape3_repaired_fld.
+  unfold shape3_free. apply forallb_forall. intros [[d c] i] _. cbn beta iota. apply forallb_forall. intros g _. apply shape3_repaired_fld.
 Qed.
 
 Lemma uniform_scope_inv ma e0 e1 r :
@@ -794,36 +794,59 @@ Lemma uniform_scope_inv ma e0 e1 r :
   /\ (forall e : entry, In e (e0 :: e1 :: r) -> is_some (snd e) = is_some (snd e0))
   /\ has_optional (snd (snd (fst e0))) = false.
 Proof.
-  destruct e0 as [[d0 c0] i0]. cbn [uniform_scope fst snd]. intros U.
-  repeat (apply andb_true_iff in U as [U ?]).
+  destruct e0 as [[d0 c0] i0]. unfold uniform_scope. cbn [fst snd]. intros U.
+  apply andb_true_iff in U as [U H]. apply andb_true_iff in U as [U H0]. apply andb_true_iff in U as [U H1].
+  apply andb_true_iff in U as [U H2].
   rewrite forallb_forall in U, H2. repeat split.
   - intros e [<-|He]; [reflexivity|]. apply dcls_beq_eq. now apply U.
   - intros e [<-|He]; [reflexivity|]. apply Bool.eqb_prop. now apply H2.
   - cbn [List.length Nat.leb orb] in H0. now apply negb_true_iff in H0.
 Qed.
 
+(* C03: the resolver fails with a ConflictResolutionError only *)
+Lemma resolve_errors_CRE opts m fs e : resolve_gen opts m fs = Err e -> e = CRE.
+Proof. exact (errors_are_CRE opts m max_attempts_gen fs e). Qed.
+
+(* the run, with the regenerated facts computed away (a flipped fact makes this lemma fail) *)
+Lemma sp_unfold c f : api_ok c f = true ->
+  sp_parse_empty_gen c f =
+  match p_mode c with
+  | MPlain m => match resolve_gen (option_strings (p_cfg c)) m (forest_fws f) with
+                | Err e => Err e
+                | Ok _ => Ok (parse_plain guard_gen order_std factory_cached_gen f)
+                end
+  | MMerge => if uniform_scope max_attempts_gen f then
+                if same_field_clashes (p_cfg c) then
+                  match f with
+                  | [_] => Ok (parse_plain guard_gen order_std factory_cached_gen f)
+                  | (_, c0, _) :: _ => parse_uniform order_std pk_chain_gen c0 f
+                  | [] => Ok []
+                  end
+                else Ok (parse_plain guard_gen order_std factory_cached_gen f)
+              else parse_merge_gen (option_strings (p_cfg c)) f
+  end.
+Proof.
+  intros A. unfold sp_parse_empty_gen, sp_parse_empty. rewrite A. destruct (p_api c); reflexivity.
+Qed.
+
 Theorem empty_defaults_partial c f :
   wf_forest f = true -> api_ok c f = true -> side_ok_gen c f = true ->
   meets_C01 f (sp_parse_empty_gen c f).
 Proof.
-  intros W A S. unfold sp_parse_empty_gen, sp_parse_empty. rewrite A. cbn [negb].
-  change parse_is_parser_gen with true. change deepest_first_gen with true. cbn [negb andb].
-  assert (P : (match p_api c with AParse => false | AParser => false end) = false) by (destruct (p_api c); reflexivity).
-  rewrite P. clear P.
+  intros W A S. rewrite (sp_unfold c f A).
   unfold side_ok_gen, side_ok in S. destruct (p_mode c) as [m|].
   - destruct (resolve_gen (option_strings (p_cfg c)) m (forest_fws f)) as [fs|e] eqn:R.
     + cbn [meets_C01]. exact (parse_plain_meets guard_gen factory_cached_gen f W S).
-    + unfold resolve_gen in R. apply errors_are_CRE in R. subst e. exact I.
+    + rewrite (resolve_errors_CRE _ _ _ _ R). exact I.
   - apply andb_true_iff in S as [S S3]. apply andb_true_iff in S as [U NDl]. rewrite U.
+    destruct (same_field_clashes (p_cfg c));
+      [|cbn [meets_C01]; exact (parse_plain_meets guard_gen factory_cached_gen f W S3)].
     destruct f as [|e0 [|e1 r]].
     + discriminate.
-    + cbn [meets_C01]. exact (parse_plain_meets guard_gen factory_cached_gen [e0] W S3).
+    + destruct e0 as [[d0 c0] i0]. cbn [meets_C01]. exact (parse_plain_meets guard_gen factory_cached_gen _ W S3).
     + destruct (uniform_scope_inv _ _ _ _ U) as [SC [SD NO]].
-      destruct e0 as [[d0 c0] i0]. cbn [fst snd] in *.
-      pose proof (parse_uniform_meets pk_chain_gen c0 (d0, c0, i0) e1 r pk_chain_known W SC SD NO NDl) as X.
-      cbn zeta in X. change (parse_uniform default_sources_gen pk_chain_gen c0 ((d0, c0, i0) :: e1 :: r))
-        with (parse_uniform order_std pk_chain_gen c0 ((d0, c0, i0) :: e1 :: r)).
-      rewrite X. reflexivity.
+      destruct e0 as [[d0 c0] i0]. cbn [fst snd] in SC, SD, NO.
+      rewrite (parse_uniform_meets pk_chain_gen c0 (d0, c0, i0) e1 r pk_chain_known W SC SD NO NDl). reflexivity.
 Qed.
 
 (* once the guard of _create_dataclass_instance also looks at wrapper.defaults (#3 repaired), NONE / EXPLICIT / AUTO need no side
@@ -916,3 +939,67 @@ Proof. exists cfg_merge, forest_20. destruct witness_20 as [W [A [E _]]]. auto. 
 Theorem refuted_by_merged_optional_member :
   exists c f, wf_forest f = true /\ api_ok c f = true /\ ~ meets_C01 f (sp_parse_empty_gen c f).
 Proof. exists cfg_merge, forest_21. destruct witness_21 as [W [A [_ N]]]. auto. Qed.
+
+(* ---------------------------------------------------------------------------------------------- *)
+(* statements re-exported by Properties/C01.v                                                      *)
+(* ---------------------------------------------------------------------------------------------- *)
+Theorem default_resolves n d fac D :
+  is_inst D ->
+  leaf_default_gen n d fac (Some D) [D] = as_value (attr D n)      (* the wrapper's own default instance (caller / parent attribute) *)
+  /\ leaf_default_gen n d fac None [D] = as_value (attr D n)       (* the default list of the parent wrapper (member default factory) *)
+  /\ leaf_default_gen n d fac None [] = d                          (* the field default / the cached default_factory value *)
+  /\ leaf_default_gen n d fac None [vnone] = d.                    (* below an Optional member that is None *)
+Proof.
+  intros I. repeat split.
+  - exact (default_from_wrapper_default factory_cached_gen n d fac D I).
+  - exact (default_from_parent_default factory_cached_gen n d fac D I).
+  - exact (default_from_field factory_cached_gen n d fac).
+  - exact (default_under_none factory_cached_gen n d fac).
+Qed.
+
+Theorem bottom_up_rebuilds cn fs vals has_wd :
+  wf_fields fs = true -> wf_inst cn fs (VD cn vals) = true ->
+  forallb (shape3_free_fld guard_gen has_wd (Some (VD cn vals))) fs = true ->
+  VD cn (run_fields_gen fs (if has_wd then Some (VD cn vals) else None) [VD cn vals]) = VD cn vals.
+Proof.
+  intros W WI S3. unfold wf_fields in W. apply andb_true_iff in W as [Wc Wn]. apply str_nodupb_NoDup in Wn.
+  unfold wf_inst in WI. apply andb_true_iff in WI as [_ WA]. f_equal.
+  exact (run_fields_inst guard_gen factory_cached_gen fs has_wd cn vals Wc Wn WA S3).
+Qed.
+
+Theorem constructor_value_rebuilt c :
+  wf_fields (snd c) = true -> forallb (shape3_free_fld guard_gen false None) (snd c) = true ->
+  VD (fst c) (run_fields_gen (snd c) None []) = construct c.
+Proof.
+  intros W S3. unfold wf_fields in W. apply andb_true_iff in W as [Wc _]. unfold construct. f_equal.
+  exact (run_fields_construct guard_gen factory_cached_gen (snd c) Wc S3).
+Qed.
+
+Theorem side_plain_is_shape3 c f m : p_mode c = MPlain m -> side_ok_gen c f = shape3_free guard_gen f.
+Proof. intros M. unfold side_ok_gen, side_ok. now rewrite M. Qed.
+
+Theorem no_dealt_repaired chain f : pk_repaired chain = true -> no_dealt chain f = true.
+Proof. intros P. unfold no_dealt. now rewrite P. Qed.
+
+(* non-vacuity *)
+Definition cls_NV : dcls :=
+  ("T", [FLeaf "y" TInt (VInt 0) false;
+         FLeaf "xs" (TList TStr) (VList []) true;
+         FLeaf "t" (TOpt (TTupVar TInt)) VNone false;
+         FNest "o" true "Leaf" (snd cls_Leaf) DNone;
+         FNest "p" true "Leaf" (snd cls_Leaf) DFac;
+         FNest "n" false "In" (snd cls_In) (DInst (VD "In" [("z", VL (VInt 7))]))]).
+Definition inst_NV : vt :=
+  VD "T" [("y", VL (VInt 3)); ("xs", VL (VList [VStr ""; VStr "a"])); ("t", VL (VTup [VInt 1]));
+          ("o", VD "Leaf" [("x", VL (VInt 2)); ("s", VL (VStr "k"))]); ("p", VL VNone); ("n", VD "In" [("z", VL (VInt 0))])].
+Definition forest_NV : forest := [("d0", cls_NV, Some inst_NV); ("d1", cls_In, None)].
+Definition forest_NV_merge : forest :=
+  [("d0", cls_M19, Some inst_M19); ("d1", cls_M19, Some (VD "M19" [("y", VL (VInt 0)); ("inner", VD "In" [("z", VL (VInt 0))])]))].
+
+Lemma nonvacuous :
+  wf_forest forest_NV = true /\ api_ok cfg_auto forest_NV = true /\ side_ok_gen cfg_auto forest_NV = true
+  /\ sp_parse_empty_gen cfg_auto forest_NV = Ok [("d0", inst_NV); ("d1", VD "In" [("z", VL (VInt 1))])]
+  /\ wf_forest forest_NV_merge = true /\ side_ok_gen cfg_merge forest_NV_merge = true
+  /\ sp_parse_empty_gen cfg_merge forest_NV_merge = Ok (spec_C01 forest_NV_merge)
+  /\ parse_merge_gen (option_strings (p_cfg cfg_merge)) forest_NV_merge = Ok (spec_C01 forest_NV_merge).
+Proof. vm_compute. repeat split; reflexivity. Qed.
